@@ -336,6 +336,17 @@ def o14_inline_semantics(check: Check, repo: Repo) -> None:
         check.oblige("O14", construct, sig, False, finding=Finding("O14", construct, sig, f"{sig}: e.g. {msgs[0]} ({len(msgs)} of {n} combinations); the optimized parser then treats trivia, pairs or tags differently from optimizer=None", {"witness": msgs[0]}))
 
 
+def o7b_unroll_concrete(check: Check, repo: Repo) -> None:
+    from ..unrollsem import check_unroll_pass
+
+    construct = f"{UNROLL}::unroll"
+    n, bad = check_unroll_pass(repo, construct)
+    check.count("unroll_model_nodes", n)
+    sig = "the unroll pass rewrites a bounded repetition into something else than pest's unrolled form"
+    check.oblige("O7", construct, f"on all {n} bounded repetitions with bounds 0..3 the pass yields the flat unrolled form (or declines)" if not bad else sig, not bad,
+                 finding=Finding("O7", construct, sig, f"{sig}: {bad[0] if bad else ''} ({len(bad)} of {n})", {"witness": bad[0] if bad else ""}))
+
+
 def o13_fold_flags(check: Check, repo: Repo) -> None:
     """A squashed choice must fold case exactly like the `^"..."` literal it replaces: CIString compiles with re.I
     under the regex module's default VERSION0 (simple folding); a global VERSION1 / FULLCASE on the squashed
@@ -389,6 +400,7 @@ def run(tier: str) -> Check:
     o4_purity(check, repo)
     o5_inplace(check, repo)
     o7_unroll(check, repo)
+    o7b_unroll_concrete(check, repo)
     o8_inliners(check, repo)
     o9_skip_rule(check, repo)
     check.floor("truthy_skeletons", 2)
